@@ -168,18 +168,17 @@ static inline bool validate_number_delimiter(edn_parser_t* parser, const char* s
 /*
  * Binary GCD algorithm (Stein's algorithm)
  */
-static int64_t ratio_gcd(int64_t a, int64_t b) {
-    /* Make both values positive for GCD calculation */
-    if (a < 0)
-        a = -a;
-    if (b < 0)
-        b = -b;
+static int64_t ratio_gcd(int64_t sa, int64_t sb) {
+    /* Work on magnitudes in uint64_t: -INT64_MIN is not representable in int64_t and
+     * the loops below only terminate for non-negative operands */
+    uint64_t a = (sa < 0) ? (uint64_t) 0 - (uint64_t) sa : (uint64_t) sa;
+    uint64_t b = (sb < 0) ? (uint64_t) 0 - (uint64_t) sb : (uint64_t) sb;
 
     /* Handle edge cases */
     if (a == 0)
-        return b;
+        return (int64_t) b;
     if (b == 0)
-        return a;
+        return (int64_t) a;
 
     /* Find common factor of 2 */
     int shift = 0;
@@ -203,7 +202,7 @@ static int64_t ratio_gcd(int64_t a, int64_t b) {
 
         /* Ensure a <= b, swap if needed */
         if (a > b) {
-            int64_t temp = a;
+            uint64_t temp = a;
             a = b;
             b = temp;
         }
@@ -212,8 +211,9 @@ static int64_t ratio_gcd(int64_t a, int64_t b) {
         b = b - a;
     } while (b != 0);
 
-    /* Restore common factors of 2 */
-    return a << shift;
+    /* Restore common factors of 2. The denominator of a ratio is a positive int64, so
+     * the gcd of a ratio's operands always fits in int64_t */
+    return (int64_t) (a << shift);
 }
 #endif
 
